@@ -129,6 +129,17 @@ def check_object(run, fdmod, coremod, states):
             vio("CartesianCoords", "-", states[0], "x, y, z / cartesian_coords are not the (x, y, z)-indexed mesh of the axis arrays")
         # Cartesian <-> spherical round trip (harness-side clause)
         r, th, ph = fd.cartesian_to_spherical(fd.x, fd.y, fd.z)
+        # spherical -> Cartesian is the textbook map for ANY azimuth (extraction spheres are sampled with phi in [0, 2 pi))
+        thm, phm = np.meshgrid(np.pi * np.array([0.1, 0.37, 0.5, 0.82]), 2 * np.pi * np.array([0.03, 0.3, 0.55, 0.8, 0.97]), indexing="ij")
+        for rad in (0.7, np.full(thm.shape, 1.3)):
+            xs, ys, zs = fd.spherical_to_cartesian(rad, thm, phm)
+            ref = (rad * np.sin(thm) * np.cos(phm), rad * np.sin(thm) * np.sin(phm), rad * np.cos(thm))
+            errs = max(np.abs(np.asarray(a) - b).max() for a, b in zip((xs, ys, zs), ref))
+            if not errs <= 1e-12:
+                ok = False
+                vio("SphericalToCartesianIsTheTextbookMap", "-", states[0], f"spherical_to_cartesian(r, theta, phi) differs from (r sin cos, r sin sin, r cos) "
+                    f"by {errs!r} for azimuths in [0, 2 pi)")
+                break
         x2, y2, z2 = fd.spherical_to_cartesian(r, th, ph)
         sc = max(np.abs(fd.cartesian_coords).max(), 1.0)
         err = max(np.abs(x2 - fd.x).max(), np.abs(y2 - fd.y).max(), np.abs(z2 - fd.z).max())
